@@ -11,8 +11,10 @@ CONFIG = dict(
     rule=("Case = scenario + order + cache config. Non-trivial = a block whose Atropos sees at least one forker while another validator "
           "that forked somewhere in the DAG is not (yet) visible as forker from it; distinct by scenario hash."),
     assumptions=["the Atropos is taken from the implementation; only the cheater list is judged here (Atropos choice is C10's subject)"],
-    level_more='On instances that switch epochs by Reset, an epoch is sometimes replayed after a Reset to the same epoch with other weights (another canonical order) for the same validators. Unit TestC03Shapes runs the property on the large shapes, preferring the mass fork.',
+    level_more='Unit TestC03SplitView: a constructed family of DAGs in which the first validator of the canonical order alone sees a fork and falls silent while the second reaches the next frame without having heard of it (cheater lists that shrink from one block to the next). On instances that switch epochs by Reset, an epoch is sometimes replayed after a Reset to the same epoch with other weights (another canonical order) for the same validators. Unit TestC03Shapes runs the property on the large shapes, preferring the mass fork.',
     units=[dict(test="TestC03Cheaters", quick=3000, thorough=144000, shards=16),
            # the rare large shapes: a forker with 66-70 same-seq events of which only the last are built upon, 65-70 validators, huge blocks
-           dict(test="TestC03Shapes", quick=16, thorough=640, shards=16)],
+           dict(test="TestC03Shapes", quick=16, thorough=640, shards=16),
+           # a constructed family (synchronous rounds) in which consecutive Atropoi have non-nested views of a fork
+           dict(test="TestC03SplitView", quick=200, thorough=16000, shards=16)],
 )
